@@ -21,7 +21,9 @@ RULE = ('Generated ledgers (documents biased to directives with lists: transacti
         'Plus bounded-exhaustive enumeration of every (start, stop, step) in ([-4..4] u None)^3 (thorough [-6..6]) for slice deletion '
         'and assignment on lists of size 0..3 (thorough 0..4) through the raw list and the tag/link views. Oracle: a Python list of '
         'identities for the raw list, each view == the raw list filtered/converted now, a view mutation == the same list operation on '
-        'the view\'s previous content with invisible elements left in place, first-match ordered-dict semantics for meta. '
+        'the view\'s previous content with invisible elements left in place, first-match ordered-dict semantics for meta (the first item '
+        'with the key takes an assigned value, every other item prints unchanged), plus every keyed operation x key in {aa,bb,cc} over '
+        'every layout of <= 3 (thorough 5) meta items keyed from {aa,bb} on a transaction, a posting and a one-line directive. '
         'Non-trivial = a mutation through one view followed by a read through a different view of the same list with >= 1 element '
         'not visible in one of them.')
 ASSUMPTIONS = [
@@ -30,7 +32,7 @@ ASSUMPTIONS = [
     'where in the raw list an insertion through a filtered view lands is not prescribed',
 ]
 SHRINK_LISTS = ('ops', 'dirs')
-REQUIRED_CLASSES = ('via:list', 'via:view', 'via:map', 'primed', 'lazy', 'mixed-visibility')
+REQUIRED_CLASSES = ('map:duplicate-keys', 'via:list', 'via:view', 'via:map', 'primed', 'lazy', 'mixed-visibility')
 
 VIEW_SPECS = {
     # view prop -> (raw prop, visible predicate name, converts to values)
@@ -173,6 +175,11 @@ def run_case(case: dict) -> Result:
             classes.add('mixed-visibility')
         if id(P) in last_via and last_via[id(P)] != via and mixed:
             nontrivial = True
+        if op['f'] == 'map':
+            ks = [x.key for x in a.ref.get('items', [])]
+            if len(set(ks)) < len(ks):
+                classes.add('map:duplicate-keys')
+                nontrivial = True
         last_via[id(P)] = via
         what = f'{op}'
         raised: Optional[BaseException] = None
@@ -249,6 +256,18 @@ def _check_map(a: Any, P: Any, rawname: str, raw_before: list, op: dict) -> Opti
             exp = [new if x is match else x for x in raw_before] if match is not None else raw_before + [new]
         elif match is not None:
             exp = raw_before
+            # first-match semantics: the FIRST item with that key takes the value; every other item (duplicates of the key included) is untouched
+            for x, t0 in zip(a.ref.get('items', []), a.ref.get('item_texts', [])):
+                if x is not match and O.print_text(x) != t0:
+                    return (tag + ':wrong-item', f'{op}: the assignment changed {t0!r} to {O.print_text(x)!r}; only the first item with key {key!r} ({O.print_text(match)!r}) may change')
+            v = a.ref.get('value')
+            try:
+                got = match.value
+                ok = (got is v) or (not isinstance(v, base.RawModel) and type(got) == type(v) and got == v) or (isinstance(v, base.RawModel) and isinstance(got, base.RawModel) and O.print_text(got) == O.print_text(v))
+            except ArithmeticError:
+                ok = True
+            if not ok:
+                return (tag + ':first-match-not-updated', f'{op}: the first item with key {key!r} now has value {match.value!r}, expected {v!r}')
         else:
             if len(raw_now) != len(raw_before) + 1 or not same_list(raw_now[:-1], raw_before) or getattr(raw_now[-1], 'key', None) != key:
                 return (tag, f'{op}: expected one new item with key {key!r} appended, raw list is {_show(raw_now)}')
@@ -350,11 +369,34 @@ def _enum(bound: int, maxn: int):
                                                                       'donors': [{'k': 'LINK', 't': '^z'}]}]}
 
 
+def _enum_meta(maxn: int):
+    """Every keyed operation on meta mappings over every key layout of up to maxn items drawn from {aa, bb} (so duplicates of a key are the
+    common case), with and without standalone comments between the items, on a transaction header, on a posting and on a one-line
+    directive; primed and lazy."""
+    hosts = (('Transaction', '2000-01-01 *\n', '    ', '    Assets:A  1 USD\n'),
+             ('Posting', '2000-01-01 *\n    Assets:A  1 USD\n', '        ', '    Assets:B  2 USD\n'),
+             ('Close', '2000-01-01 close Assets:A\n', '  ', ''))
+    layouts = [(keys, comments) for n in range(0, maxn + 1) for keys in itertools.product(('aa', 'bb'), repeat=n) for comments in (False, True)]
+    for (cls, head, ind, tail), (keys, comments) in itertools.product(hosts, layouts):
+        body = ''.join((f'{ind}; c{i}\n' if comments else '') + f'{ind}{k}: "v{i}"\n' for i, k in enumerate(keys))
+        dirs = [[['X', head + body + tail]]]
+        for prop, key, name, prime_ in itertools.product(('meta', 'raw_meta'), ('aa', 'bb', 'cc'),
+                                                         ('set', 'del', 'pop', 'pop_default', 'setdefault'), (True, False)):
+            op = {'f': 'map', 'cls': cls, 'mi': 0, 'prop': prop, 'op': name, 'key': key}
+            if prop == 'meta':
+                op['v'] = {'vt': 'str', 'v': 'new'}
+            else:
+                op['donor'] = {'k': 'meta_item', 't': f'{ind}{key}: "new"\n'}
+            yield {'dirs': dirs, 'prime': prime_, 'ops': [op, {**op, 'op': 'pop_default'}]}
+
+
 def jobs(tier: str) -> list[Job]:
     if tier == 'quick':
         return [Job('histories', 'hyp', lambda: _build(tier), 3000),
                 Job('enum-slices', 'enum', lambda: _enum(3, 3), exhaustive=True),
+                Job('enum-meta', 'enum', lambda: _enum_meta(3), exhaustive=True),
                 Job('list-sweep', 'enum', sweeps.list_sweep, exhaustive=True)]
     return [Job('histories', 'hyp', lambda: _build(tier), 120000),
             Job('enum-slices', 'enum', lambda: _enum(6, 4), exhaustive=True),
+            Job('enum-meta', 'enum', lambda: _enum_meta(5), exhaustive=True),
             Job('list-sweep', 'enum', sweeps.list_sweep, exhaustive=True)]
